@@ -203,7 +203,8 @@ theorem C19_plain_partial (self : Val) (f : Func Val) (c : PCall Val)
       cases f.varargs <;> simp <;> omega
     have e4 : (vchecks f c ((names f.pos).map (fun n => (n, false))) (defaultsOf f.pos) []).varkw = true ↔
         ¬ ((diff (keys c.kwds) (names f.pos)) ≠ [] ∧ f.varkw = false) := by
-      simp only [vchecks, hnamed, Bool.or_eq_true, List.isEmpty_iff]
+      have hk0 : names f.kwonly = [] := by simp [hko, names]
+      simp only [vchecks, hnamed, hk0, List.append_nil, Bool.or_eq_true, List.isEmpty_iff]
       cases f.varkw <;> simp
     have e7 : (vchecks f c ((names f.pos).map (fun n => (n, false))) (defaultsOf f.pos) []).dup =
         (inter (keys ((names f.pos).zip c.args)) (keys c.kwds)).isEmpty := by
@@ -214,7 +215,9 @@ theorem C19_plain_partial (self : Val) (f : Func Val) (c : PCall Val)
       simp only [vchecks, hnamed]
     have e9 : (vchecks f c ((names f.pos).map (fun n => (n, false))) (defaultsOf f.pos) []).boundSelf = true := by
       simp [vchecks, h3]
-    simp only [validate, hsig, VChecks.all, Bool.and_eq_true, e1, e2, e5, e6, e9, true_and, and_true]
+    have e10 : (vchecks f c ((names f.pos).map (fun n => (n, false))) (defaultsOf f.pos) []).kwonlyReq = true := by
+      simp [vchecks, hko, names]
+    simp only [validate, hsig, VChecks.all, Bool.and_eq_true, e1, e2, e5, e6, e9, e10, true_and, and_true]
     rw [e3, e4, e7, e8]
     constructor
     · rintro ⟨⟨⟨a, b⟩, c'⟩, d⟩; exact ⟨a, b, c', d⟩
@@ -259,14 +262,19 @@ theorem C19_plain_partial (self : Val) (f : Func Val) (c : PCall Val)
 section Examples
 /-- objects: 10 = 'a', 11 = 'b', 12 = 'c'; values 20, 21, 22 -/
 def q : Func Nat := { pos := [⟨10, none⟩], varargs := false, kwonly := [⟨12, none⟩], varkw := false }
-/-- **F17a** `def q(a, *, c)`: `isvalid(q, 1)` is `True` although the required keyword-only `c` is missing … -/
-example : validate q { args := [20], kwds := [] } = true ∧ bind 0 q { args := [20], kwds := [] } = none := by decide
-/-- … and `isvalid(q, 1, c=1)` is `False` although the call is fine -/
-example : validate q { args := [20], kwds := [(12, 21)] } = false ∧
+/-- **F17a, repaired** `def q(a, *, c)`: `isvalid(q, 1)` is `False` - the required keyword-only `c` is missing
+(before the repair `validate` did not know keyword-only parameters and said `True`) … -/
+example : validate q { args := [20], kwds := [] } = false ∧ bind 0 q { args := [20], kwds := [] } = none := by decide
+/-- … and `isvalid(q, 1, c=1)` is `True` (it used to be rejected as an unexpected keyword) -/
+example : validate q { args := [20], kwds := [(12, 21)] } = true ∧
     (bind 0 q { args := [20], kwds := [(12, 21)] }).isSome = true := by decide
-/-- **F17b** `def r(a, b=5)`; `partial(r, 1, 2)()` is a valid call, `isvalid` says `False` -/
+/-- **F17b, repaired** `def r(a, b=5)`; `partial(r, 1, 2)()` is a valid call and `isvalid` says so (the fixed positionals
+are counted against all named parameters, not only the required ones) -/
 def r : Func Nat := { pos := [⟨10, none⟩, ⟨11, some 25⟩], varargs := false, kwonly := [], varkw := false, pArgs := [20, 21] }
-example : validate r { args := [], kwds := [] } = false ∧ (bind 0 r { args := [], kwds := [] }).isSome = true := by decide
+example : validate r { args := [], kwds := [] } = true ∧ (bind 0 r { args := [], kwds := [] }).isSome = true := by decide
+/-- … while a third fixed positional still needs `*args` -/
+example : validate { r with pArgs := [20, 21, 22] } { args := [], kwds := [] } = false ∧
+    bind 0 { r with pArgs := [20, 21, 22] } { args := [], kwds := [] } = none := by decide
 /-- **F30, repaired**: a partial over a *bound method* `m(self, x, **kw)`: `partial(inst.m, 1)(x=2)` binds `x`
 twice; the fixed positional is matched against `x` (not against `self`, as it was before the repair), so `validate`
 now rejects the call as CPython does - and still accepts the valid `partial(inst.m, 1)(q=2)` -/
